@@ -8,6 +8,8 @@ import (
 	_ "verif/internal/props/c10"
 	_ "verif/internal/props/c11"
 	_ "verif/internal/props/c12"
+	_ "verif/internal/props/c13"
+	_ "verif/internal/props/c14"
 	_ "verif/internal/props/c15"
 	_ "verif/internal/props/c19"
 	_ "verif/internal/props/c20"
